@@ -208,6 +208,27 @@ def check_relativity(a, o):
         except Exception as e:
             probs.append(("C06/relativity/" + crash_sig(e), "%s empty origin: %s: %s" % (show(a), type(e).__name__, e)))
         return probs, "empty-origin"
+    if o[-1] != b"":
+        # a relative, non-empty origin: only relative names can lie beneath it
+        A, O = dns.name.Name(a), dns.name.Name(o)
+        probs = []
+        what = "%s relative origin %s" % (show(a), show(o))
+        try:
+            under = (not R.is_absolute(a)) and len(a) >= len(o) and all(
+                x.lower() == y.lower() for x, y in zip(a[len(a) - len(o):], o))
+            r = A.relativize(O)
+            if under:
+                exp = a[:len(a) - len(o)]
+                if r.labels != exp:
+                    probs.append(("C06/relativize/relative-origin/labels", "%s: relativize gave %r expected %r" % (what, r.labels, exp)))
+                d = r.derelativize(O)
+                if not R.same_name(d.labels, a):
+                    probs.append(("C06/derelativize-after-relativize/relative-origin", "%s: back to %r" % (what, d.labels)))
+            elif r.labels != a:
+                probs.append(("C06/relativize/relative-origin/not-under-changed", "%s: gave %r" % (what, r.labels)))
+        except Exception as e:
+            probs.append(("C06/relativity/" + crash_sig(e), "%s: %s: %s" % (what, type(e).__name__, e)))
+        return probs, "relative-origin"
     A, O = dns.name.Name(a), dns.name.Name(o)
     probs = []
     what = "%s origin %s" % (show(a), show(o))
@@ -489,7 +510,7 @@ def w_unary(task, col):
         col.outcome("unary:ok" if not probs else "unary:" + probs[0][0])
         for s, w in probs:
             col.violation(s, w, {"mode": "unary", "a": list(a)})
-        for o in ORIGINS + [()]:
+        for o in ORIGINS + [(), (b"example",), (b"a",), (b"A", b"a")]:
             probs, out = check_relativity(a, o)
             col.count("evaluations")
             col.count("relativity")
